@@ -24,6 +24,7 @@ from pyoda_time import Duration, Instant, Offset
 from vf.core.evidence import Acc, exc_origin
 from vf.core.par import pmap
 from vf.models import intarith as M
+from vf.models import tzcases as TZ
 from vf.models.valbind import kw_forms, kw_ok
 
 LEVEL = "model_checking"
@@ -401,6 +402,59 @@ def check_factory(acc, unit, n):
     return exact
 
 
+# float arguments that are NOT exact in the float computation: tiny magnitudes, non-dyadic values, values whose product with the unit
+# size exceeds 53 bits.  Float routes are inexact by nature; demanded: normal form, sign symmetry, the error bound of one float
+# multiplication + truncation, and == / hash consistency with the integer-built Duration of the same nanoseconds
+INEXACT_FLOATS = (5e-324, 1e-20, 2.0 ** -54, 2.0 ** -53, 1e-16, 1e-9, 0.1, 2.7, 3.6, 12.34, 1.0 / 3.0, 86399.999999999, 123456789.0, 9.87654321e8)
+
+
+def check_factory_float(acc, unit, x):
+    uns = M.UNIT_NS[unit]
+    real = Fraction(x) * uns                       # the mathematically exact number of nanoseconds
+    slack = abs(real) / 2 ** 52 + 1                # one rounding of the float product (2^-53 relative) and the truncation
+    case = {"kind": "dur-factory-float", "unit": unit, "x": x.hex()}
+    cls = "%s,float,%s" % (sgn(x), "tiny" if abs(real) < 1 else ("non-dyadic" if abs(real) < 2 ** 52 else "beyond-53-bits"))
+    key = "C03/duration/from_" + unit
+    acc.count(states=1, transitions=1, evaluations=1, nontrivial=1)
+    inside = M.DUR_MIN_NS + slack <= real <= M.DUR_MAX_NS - slack
+    outside = real < M.DUR_MIN_NS - slack or real > M.DUR_MAX_NS + slack
+    try:
+        d = getattr(Duration, "from_" + unit)(x)
+    except RANGE_EXC as e:
+        if exc_origin(e) == "harness":
+            raise
+        if inside:
+            acc.violation("%s/raises-in-range/%s" % (key, cls), "from_%s(%r) raised %s although %s ns is inside the range" % (unit, x, type(e).__name__, float(real)), case)
+        else:
+            acc.outcome("raise:" + type(e).__name__)
+        return
+    if outside:
+        acc.violation("%s/no-raise/%s" % (key, cls), "from_%s(%r) is outside the range but %r ns was returned" % (unit, x, d.to_nanoseconds()), case)
+        return
+    acc.outcome("value")
+    got = d.to_nanoseconds()
+    if not check_dur(acc, d, got, key, cls, case):          # normal form and a public view consistent with its own total
+        return
+    if abs(got - real) > slack:
+        acc.violation("%s/float-error/%s" % (key, cls), "from_%s(%r) is %d ns, exact %s ns: error beyond one float rounding + truncation" % (unit, x, got, float(real)), case)
+    ref = mk(got)
+    acc.count(evaluations=2)
+    if not (d == ref and hash(d) == hash(ref) and d.compare_to(ref) == 0):
+        acc.violation("%s/equality/%s" % (key, cls), "from_%s(%r) (%d ns) is not equal / hash-equal to from_nanoseconds(%d)" % (unit, x, got, got), case)
+    try:
+        m = getattr(Duration, "from_" + unit)(-x)
+    except RANGE_EXC:
+        return
+    acc.count(transitions=1, evaluations=1)
+    if m.to_nanoseconds() != -got or normal_form(acc, m) is not None or not (in_dur_neg(got) and m == -d or not in_dur_neg(got)):
+        acc.violation("%s/sign-symmetry/%s" % (key, cls), "from_%s(%r) is %d ns but from_%s(%r) is %d ns (floor days %r, nano %r)" % (
+            unit, x, got, unit, -x, m.to_nanoseconds(), getattr(m, "_floor_days", "?"), getattr(m, "_nanosecond_of_floor_day", "?")), case)
+
+
+def in_dur_neg(ns):
+    return M.in_dur(-ns)
+
+
 CMP = (("lt", lambda a, b: a < b), ("le", lambda a, b: a <= b), ("gt", lambda a, b: a > b), ("ge", lambda a, b: a >= b),
        ("eq", lambda a, b: a == b), ("ne", lambda a, b: a != b))
 
@@ -479,6 +533,9 @@ def w_dur_factory(job):
     for f in FLOATS:
         for x in (f, f * 1024.0):
             guarded(acc, "C03/duration/from_" + unit, {"kind": "dur-factory", "unit": unit, "n": {"float": x.hex()}}, check_factory, unit, x)
+    for f in INEXACT_FLOATS:
+        for x in (f, -f):
+            guarded(acc, "C03/duration/from_" + unit, {"kind": "dur-factory-float", "unit": unit, "x": x.hex()}, check_factory_float, unit, x)
     acc.sample({"factory": "from_" + unit, "counts": len(counts), "first": counts[:3]})
     return acc, sorted(new)
 
@@ -725,6 +782,18 @@ def w_inst_misc(_):
                         acc.violation("C03/instant/to_datetime_utc/%s" % cls, "Instant.from_aware_datetime(%s).to_datetime_utc() is %s" % (a, back), case)
                 except Exception as e:  # noqa: BLE001
                     acc.lib_exception("C03/instant/to_datetime_utc", e, case)
+    # the same route with a tzinfo whose utc offset depends on the date and on fold (zoneinfo zones around their transitions, a
+    # user-defined tzinfo): the datetime denotes local - dt.utcoffset() as the stdlib computes it for THAT datetime
+    zc, missing = TZ.zone_cases(("America/New_York", "Australia/Lord_Howe"), (2024,))
+    for z in missing:
+        acc.degrade("zoneinfo zone %s not available on this machine: its cases are skipped" % z)
+    for label, a in zc + TZ.custom_cases():
+        exact = TZ.exact_instant_us(a) * 1000
+        other = a.replace(fold=1 - a.fold).utcoffset()
+        cls = "%s;fold=%d%s" % (label.replace("/", "."), a.fold, ",fold-matters" if other != a.utcoffset() else "")
+        case = {"kind": "inst-from-aware-tz", "zone": label, "local": a.replace(tzinfo=None).isoformat(), "fold": a.fold}
+        expect_inst(acc, lambda: Instant.from_aware_datetime(a), M.in_inst(exact), exact, "C03/instant/from_aware_datetime", cls, case)
+        acc.count(states=1, nontrivial=1 if other != a.utcoffset() else 0)
     acc.count(evaluations=2)
     if inst_ns(acc, Instant.min_value) != M.INST_MIN_NS or inst_ns(acc, Instant.max_value) != M.INST_MAX_NS:
         acc.violation("C03/instant/range-ends", "Instant.min_value/max_value differ from -9998-01-01T00:00 / 9999-12-31T23:59:59.999999999", None)
@@ -980,13 +1049,15 @@ def replay(rec):
         if isinstance(n, dict):
             n = float.fromhex(n["float"])
         guarded(acc, "C03/duration/from_" + case["unit"], case, check_factory, case["unit"], n)
+    elif k == "dur-factory-float":
+        guarded(acc, "C03/duration/from_" + case["unit"], case, check_factory_float, case["unit"], float.fromhex(case["x"]))
     elif k in ("dur-binop", "dur-compare"):
         guarded(acc, "C03/duration/pair", case, check_pair, case["a"], case["b"], mk(case["a"]), mk(case["b"]))
     elif k in ("inst-value", "inst-dur", "inst-plus", "inst-safe"):
         durs = [case["d"]] if "d" in case else [0, 1, -1]
         offs = [case["o"]] if "o" in case else [0, M.OFF_MAX_S, M.OFF_MIN_S]
         guarded(acc, "C03/instant/value", case, check_instant_value, case["ns"], durs, offs)
-    elif k in ("inst-from-unix", "inst-from-utc", "inst-from-aware"):
+    elif k in ("inst-from-unix", "inst-from-utc", "inst-from-aware", "inst-from-aware-tz"):
         acc.merge(w_inst_misc(0)[0])
     elif k and k.startswith("off-"):
         acc.merge(w_off_misc(off_alphabet())[0])
